@@ -279,7 +279,7 @@ func randIP(r *gen.Rand) net.IP {
 // step applies one random building operation. Returns false to stop the sequence.
 func (s *c03State) step() bool {
 	r, m := s.r, s.m
-	switch r.Intn(38) {
+	switch r.Intn(40) {
 	case 0, 1, 2, 3: // Add
 		t := r.AttrType()
 		n := r.ValueLen(3000)
@@ -737,6 +737,26 @@ func (s *c03State) step() bool {
 		if r.Bool() {
 			s.addBystander("the other message built meanwhile", other)
 		}
+	case 38: // a by-value copy of the message (an element of a []Message, `for _, m := range batch`) is reset: Reset
+		// re-slices the copy's own slice headers, the message it was copied from is what it was
+		s.op("cp := *m; cp.Reset()")
+		cp := *m
+		cp.Reset()
+		if r.Bool() {
+			cp.Reset()
+		}
+	case 39: // a by-value copy grows beyond the shared capacity (so it moves to storage of its own) and is then rebuilt
+		// as something else: the original is what it was
+		m.Attributes = m.Attributes[:len(m.Attributes):len(m.Attributes)]
+		n := cap(m.Raw) - len(m.Raw) + 1 + r.Intn(100)
+		s.op(fmt.Sprintf("cp := *m; cp.Add(DATA,%dB beyond the capacity); cp.Build(other message)", n))
+		cp := *m
+		cp.Add(stun.AttrData, bytes.Repeat([]byte{0xEE}, n))
+		if len(cp.Raw) > 0 && len(m.Raw) > 0 && &cp.Raw[0] == &m.Raw[0] {
+			return true // did not move (cannot happen with n above the spare capacity): leave the copy alone
+		}
+		_ = cp.Build(stun.BindingSuccess, stun.NewSoftware("SECOND-MESSAGE-SECOND-MESSAGE-SECOND-MESSAGE-"+fmt.Sprint(r.Intn(1000))), stun.NewUsername("bob"),
+			stun.RawAttribute{Type: 0x7d7d, Value: bytes.Repeat([]byte{0xD7}, r.Intn(400))})
 	case 34: // calls that do not build: a refused integrity check, a fingerprint check, a lookup, an attribute walk whose
 		// callback panics. The message is what it was.
 		s.op("non-building calls (Check with a wrong key, Fingerprint.Check, Get, ForEach with a panicking callback)")
